@@ -51,6 +51,10 @@ Theorem C07_date_reload_except_known : forall d, valid_date d -> 1000 <= dy d ->
 Proof. exact date_reload_except_known. Qed.
 Print Assumptions C07_date_reload_except_known.
 
+Theorem C07_date_reload_full_if_fixed : forall d, date_text_pads_year = true -> valid_date d -> reload_date d = RVal d.
+Proof. exact date_reload_full_if_fixed. Qed.
+Print Assumptions C07_date_reload_full_if_fixed.
+
 (* SQLite time attributes: the text written by py2sql is parsed back to the time by the strptime calls of sql2py ... *)
 Theorem C07_time_text : forall t, valid_time t ->
   (if zlen_s (iso_time t) <=? 8 then strptime_hms (iso_time t) else strptime_hms_f (iso_time t)) = Some t.
